@@ -109,7 +109,7 @@ impl Gen {
         for m in max_size.iter_mut() {
             *m = if small { sizes[r.weighted(&[4, 4, 2])] } else { sizes[r.weighted(&[2, 2, 6])] };
         }
-        let slots = if r.chance(60) { r.range(1, 3) } else { r.range(3, 6) } as u8;
+        let slots = if matches!(focus, Focus::Packing) { r.range(3, 6) } else if r.chance(60) { r.range(1, 3) } else { r.range(3, 6) } as u8;
         let server_role = if r.chance(30) { Role::Full } else { Role::ServerOnly };
         let client_role = if r.chance(30) { Role::Full } else { Role::ClientOnly };
         let heal_rounds = 6 + 2 * app.period + 5;
@@ -219,7 +219,13 @@ impl Gen {
             w[0] = 30;
         }
         match self.focus {
-            Focus::Packing | Focus::Ticks | Focus::Acks => {
+            Focus::Packing => {
+                w[2] = 30;
+                if self.en_refs {
+                    w[7] = 14;
+                }
+            }
+            Focus::Ticks | Focus::Acks => {
                 w[2] = 30;
             }
             Focus::Visibility => w[6] = 16,
@@ -268,6 +274,16 @@ impl Gen {
                 let extra = self.big_len();
                 self.steps.push(Step::Mutate { slot, kind, extra });
                 self.last_slot = slot;
+                // Several entities mutated in the same tick window (message splitting, related groups).
+                if matches!(self.focus, Focus::Packing | Focus::Ticks | Focus::Acks) && self.r.chance(50) {
+                    for s in 0..self.prof.slots {
+                        if s != slot && self.r.chance(60) {
+                            let kind = if self.kinds.contains(&Kind::Big) && self.r.chance(60) { Kind::Big } else { self.kind() };
+                            let extra = self.big_len();
+                            self.steps.push(Step::Mutate { slot: s, kind, extra });
+                        }
+                    }
+                }
             }
             3 => {
                 let kind = self.kind();
@@ -301,7 +317,7 @@ impl Gen {
             }
             7 => {
                 let target = self.r.below(self.prof.slots as usize) as u8;
-                let kind = self.r.pick(&[Kind::Ref, Kind::Link]);
+                let kind = if self.focus == Focus::Packing && self.r.chance(80) { Kind::Link } else { self.r.pick(&[Kind::Ref, Kind::Link]) };
                 self.steps.push(Step::Point { slot, kind, target });
                 self.struct_op(slot);
             }
